@@ -24,6 +24,7 @@ import SSEPyVerif.Proofs.Schemes.Chain
 import SSEPyVerif.Proofs.Schemes.Prims
 import SSEPyVerif.Proofs.Schemes.Stamped
 import SSEPyVerif.Proofs.Schemes.StampedLevels
+import SSEPyVerif.Proofs.Schemes.DP17Cells
 namespace SSEPy.C04
 open SSEPy.Sch SSEPy.Sch.Chain
 
@@ -147,5 +148,25 @@ theorem ANSS16.values_from_randomness (cfg : ANSSCfg) (lv : Leaves) (hl : LeafLa
     (edb : ANSSEDB) (h : ANSS16.setup cfg lv K db t = .ok (edb, t')) :
     (∀ p ∈ edb.HTS, FromTape t p.2) ∧ ∀ T ∈ edb.HTL, ∀ p ∈ T, FromTape t p.2 :=
   ANSS16.setup_from cfg lv hl.enc_len K db t t' edb h
+
+
+/-- DP17: the level arrays hold nothing but whole cells of `param_identifier_cipher_len` bytes, and every cell is either a random
+    draw of this run (a dummy) or `Enc(F_k3(w), iv, id ‖ 0^λ)` for a posting `(w, id)` of the database under an IV drawn in
+    this run: keywords and identifiers enter the arrays only as arguments of the PRF and plaintexts of the randomized cipher —
+    for every accepted configuration, key, database and tape. -/
+theorem DP17.cells_from_randomness (raw : RawCfg) (cfg : DP17Cfg) (hcfg : DP17.cfgBuild raw = .ok cfg) (lv : Leaves)
+    (hl : LeafLaws lv) (k1 k2 k3 : Bytes) (db : DB) (t t' : Tape) (edb : DP17EDB)
+    (hs : DP17.setup cfg lv [k1, k2, k3] db t = .ok (edb, t'))
+    (hidl : ∀ p ∈ db, ∀ id ∈ p.2, (id.length : Int) = cfg.idSize) :
+    ∀ p ∈ edb.A, ∀ a ∈ p.2, ∃ cs : List Bytes, a = cs.flatten ∧ (∀ c ∈ cs, c.length = cfg.cipherLen) ∧
+      ∀ c ∈ cs, Draw.bytes c ∈ t ∨ ∃ w id etag iv, (∃ ids, (w, ids) ∈ db ∧ id ∈ ids) ∧ cfg.prfF.call lv.hmac k3 w = .ok etag ∧
+        Draw.bytes iv ∈ t ∧ iv.length = 16 ∧ cfg.rnd.encrypt lv.E etag iv (id ++ zeros cfg.lambda.toNat) = .ok c :=
+  DP17.setup_cells cfg lv raw hcfg hl k1 k2 k3 db t t' edb hs hidl
+
+/-- … hence every real cell starts with the IV drawn for it: two real cells with different IVs differ, whatever the
+    keywords and identifiers (one identifier under every keyword included) -/
+theorem DP17.real_cells_start_with_draws (cfg : DP17Cfg) (lv : Leaves) (etag iv msg c : Bytes) (hiv : iv.length = 16)
+    (h : cfg.rnd.encrypt lv.E etag iv msg = .ok c) : c.take 16 = iv :=
+  ciphertext_starts_with_draw cfg.rnd lv.E etag iv msg c hiv h
 
 end SSEPy.C04
